@@ -54,17 +54,20 @@ def absorb(ctx, rep, label, aspects, devs):
         ctx.violations.append({"from": label, "what": m["what"], "case": m["case"]})
 
 
-def loadhist(ctx, vecs, label, aspects, devs, extra=()):
-    """Replay histories on real roots; the histories are independent, so they are spread over several harness processes."""
+def loadhist(ctx, vecs, label, aspects, devs, extra=(), paths=None):
+    """Replay histories on real roots; the histories are independent, so they are spread over several harness processes.
+    (paths: the histories are already in files, one JSON document per line - see vlib.run_tlc(shards=...))"""
     import concurrent.futures
     vlib.go_build(ctx, "schema")
-    nsh = 1 if len(vecs) < 200 else (6 if ctx.tier == "quick" else 12)
-    paths = []
-    for k in range(nsh):
-        vp = os.path.join(ctx.scratch, "hist-%s-%d.json" % (label, k))
-        with open(vp, "w") as fh:
-            json.dump(vecs[k::nsh], fh)
-        paths.append(vp)
+    if paths is None:
+        nsh = 1 if len(vecs) < 200 else (6 if ctx.tier == "quick" else 12)
+        paths = []
+        for k in range(nsh):
+            vp = os.path.join(ctx.scratch, "hist-%s-%d.json" % (label, k))
+            with open(vp, "w") as fh:
+                json.dump(vecs[k::nsh], fh)
+            paths.append(vp)
+    nsh = len(paths)
     with concurrent.futures.ThreadPoolExecutor(max_workers=nsh) as ex:
         reps = list(ex.map(lambda vp: vlib.run_harness_json(ctx, "schema", ["loadhist", "-vectors", vp] + list(extra), timeout=3000), paths))
     for vp in paths:
@@ -72,6 +75,19 @@ def loadhist(ctx, vecs, label, aspects, devs, extra=()):
     for rep in reps:
         absorb(ctx, rep, label, aspects, devs)
     return reps[0]
+
+
+def loader_histories(ctx, cfgtext, label, aspects, devs, extra=(), vec_filter=None, what="MCLoader"):
+    """MCLoader's histories replayed on real roots. The histories go from TLC's output straight into files (there can be
+    hundreds of thousands of them, each with the canonical schema after every load)."""
+    nsh = 6 if ctx.tier == "quick" else 12
+    res = vlib.run_tlc(ctx, "MCLoader", cfgtext, timeout=3400, xss="64m", vec_filter=vec_filter,
+                       shards=(os.path.join(ctx.scratch, "hist-" + label), nsh))
+    vlib.require_clean(res, what)
+    if not res.nvecs:
+        raise vlib.MachineryError("%s produced no history (%s)" % (what, label))
+    loadhist(ctx, None, label, aspects, devs, extra=extra, paths=res.vec_paths)
+    return res
 
 
 TRACE_CFG = """SPECIFICATION TSpec
@@ -147,18 +163,15 @@ def run_c14(ctx):
     n = max(p[0] for p in plans)
     for k, prefixes in plans:
         # quick: every second history, chosen by the seed (TLC still checks Atomic / AsIfNeverHappened on all of them)
-        res = vlib.run_tlc(ctx, "MCLoader", loader_cfg(k, prefixes, devs, "TRUE"), timeout=3400, xss="64m",
-                           vec_filter=(lambda i: i % 2 == ctx.seed % 2) if ctx.tier == "quick" else None)
-        vlib.require_clean(res, "MCLoader")
-        loadhist(ctx, res.vecs, "histories-%d-%s" % (k, "".join(prefixes)), {"verdict", "atomic", "schema", "intro"}, devs, extra=["-intro"])
+        loader_histories(ctx, loader_cfg(k, prefixes, devs, "TRUE"), "histories-%d-%s" % (k, "".join(prefixes)), {"verdict", "atomic", "schema", "intro"}, devs,
+                         extra=["-intro"], vec_filter=(lambda i: i % 2 == ctx.seed % 2) if ctx.tier == "quick" else None)
     # "or adding types": the same histories with documents delivered as Go-built types through Root.AddTypes wherever a
     # document has such a form (no extend / schema block, nothing to read); only histories with at least one such load
     tplans = [(2, ["p0", "p1", "p2", "p3"])] if ctx.tier == "quick" else [(3, ["p1"]), (2, ["p0", "p2", "p3"])]
     for k, prefixes in tplans:
-        res = vlib.run_tlc(ctx, "MCLoader", loader_cfg(k, prefixes, devs, "TRUE", vias=("sdl", "types"), typesonly=True), timeout=3400, xss="64m",
-                           vec_filter=(lambda i: i % 2 == ctx.seed % 2) if ctx.tier == "quick" else None)
-        vlib.require_clean(res, "MCLoader (AddTypes)")
-        loadhist(ctx, res.vecs, "addtypes-histories-%d-%s" % (k, "".join(prefixes)), {"verdict", "atomic", "schema", "intro"}, devs, extra=["-intro"])
+        loader_histories(ctx, loader_cfg(k, prefixes, devs, "TRUE", vias=("sdl", "types"), typesonly=True), "addtypes-histories-%d-%s" % (k, "".join(prefixes)),
+                         {"verdict", "atomic", "schema", "intro"}, devs, extra=["-intro"],
+                         vec_filter=(lambda i: i % 2 == ctx.seed % 2) if ctx.tier == "quick" else None, what="MCLoader (AddTypes)")
     record_and_judge(ctx, devs, 400 if ctx.tier == "quick" else 6000)
     ctx.exhaustive = True
     ctx.rule = ("every history of %d loads over the %d documents of spec/LoadUniverse.tla (12 valid ones incl. extend and schema blocks, 15 failing ones: "
@@ -217,9 +230,7 @@ def run_c13(ctx):
     rep = loadhist(ctx, res.vecs, "mutations", {"verdict", "offender", "schema"}, devs, extra=["-offender"])
     # the rules hold for the schema as a whole: a later load that breaks a rule for a type loaded earlier is refused too
     for k, prefixes in ([(1, ["p1", "p2", "p3"])] if ctx.tier == "quick" else [(2, ["p1", "p2", "p3"])]):
-        hres = vlib.run_tlc(ctx, "MCLoader", loader_cfg(k, prefixes, devs, "FALSE"), timeout=3400, xss="64m")
-        vlib.require_clean(hres, "MCLoader")
-        loadhist(ctx, hres.vecs, "histories-%d-%s" % (k, "".join(prefixes)), {"verdict", "schema"}, devs)
+        loader_histories(ctx, loader_cfg(k, prefixes, devs, "FALSE"), "histories-%d-%s" % (k, "".join(prefixes)), {"verdict", "schema"}, devs)
     record_and_judge(ctx, devs, 300 if ctx.tier == "quick" else 4000)
     muts = sorted({v["tag"].split(":", 1)[1] for v in res.vecs})
     ctx.extra["mutation_kinds"] = muts
@@ -245,10 +256,8 @@ def run_c17(ctx):
     loadhist(ctx, res.vecs, "arranged-schemas", aspects, devs, extra=["-intro"])
     # histories of the loader state machine: the answer must follow the root through accepted and refused loads (no stale view)
     for k, prefixes in ([(2, ["p0", "p1", "p3"])] if ctx.tier == "quick" else [(3, ["p1"]), (2, ["p0", "p2", "p3"])]):
-        res = vlib.run_tlc(ctx, "MCLoader", loader_cfg(k, prefixes, devs, "TRUE"), timeout=3400, xss="64m",
-                           vec_filter=(lambda i: i % 3 == ctx.seed % 3) if ctx.tier == "quick" else None)
-        vlib.require_clean(res, "MCLoader")
-        loadhist(ctx, res.vecs, "histories-%d-%s" % (k, "".join(prefixes)), aspects, devs, extra=["-intro"])
+        loader_histories(ctx, loader_cfg(k, prefixes, devs, "TRUE"), "histories-%d-%s" % (k, "".join(prefixes)), aspects, devs, extra=["-intro"],
+                         vec_filter=(lambda i: i % 3 == ctx.seed % 3) if ctx.tier == "quick" else None)
     ctx.rule = ("for every accepted schema of the base/valid-variant documents of MCRules.tla and of the arrangements of MCArrange.tla (thinned), the full "
                 "introspection request (types with kind/name/description, fields with arguments, types unrolled through ofType, isDeprecated and "
                 "deprecationReason, interfaces, possibleTypes, enum values, input fields, directives with locations and arguments, the three root types) is "
